@@ -100,6 +100,10 @@ impl Cache for MemoryStore {
                         Err(CacheError::KeyExists)
                     } else {
                         record.header.cas += 1;
+                        // keep the counter ahead of tokens derived from client values,
+                        // so that it never hands out this one a second time
+                        self.cas_id
+                            .fetch_max(record.header.cas.wrapping_add(1), Ordering::Release);
                         record.header.timestamp = self.timer.timestamp();
                         let cas = record.header.cas;
                         *key_value = record;
@@ -108,6 +112,8 @@ impl Cache for MemoryStore {
                 }
                 None => {
                     record.header.cas += 1;
+                    self.cas_id
+                        .fetch_max(record.header.cas.wrapping_add(1), Ordering::Release);
                     record.header.timestamp = self.timer.timestamp();
                     let cas = record.header.cas;
                     self.memory.insert(key, record);
